@@ -395,6 +395,8 @@ var lessClause = regexp.MustCompile(`<\s*([0-9][0-9.]*)`)
 var selectedRE = regexp.MustCompile(`selected ([a-z]+)@([0-9][0-9.]*?)(a|b|rc|\.dev)[0-9]+ `)
 var requiresRE = regexp.MustCompile(`requires [a-z]+([^;]*); selected`)
 var nodeRE = regexp.MustCompile(`^([a-z]+)@([^:]+): requirement`)
+var specifierSetRE = regexp.MustCompile(`SpecifierSet\("([^"]*)"\)`)
+var notEqualPre = regexp.MustCompile(`!=\s*[0-9][0-9.]*(a|b|rc|\.dev)[0-9]`)
 var preLiteral = regexp.MustCompile(`[0-9](a|b|rc|\.dev)[0-9]`)
 
 // PrereleaseKeptAfterBacktrack: a requirement naming a prerelease (f>=2.0a1)
@@ -446,6 +448,14 @@ func knownClass(obs string, u gen.Universe) string {
 			if sameRelease(m[1], rel) {
 				return "PrereleaseOfExclusiveUpperBound"
 			}
+		}
+	}
+	// NotEqualNamesPrerelease: a requirement "!=V" with a prerelease V standing in
+	// the final graph switches prerelease matching on for the package (the
+	// constraint's spans have prerelease bounds); for packaging "!=" never does.
+	if strings.Contains(obs, "is not in packaging's SpecifierSet") && kf.Open("C08", "NotEqualNamesPrerelease") {
+		if m := specifierSetRE.FindStringSubmatch(obs); m != nil && notEqualPre.MatchString(m[1]) {
+			return "NotEqualNamesPrerelease"
 		}
 	}
 	if strings.Contains(obs, "is not in packaging's SpecifierSet") && kf.Open("C08", "PrereleaseKeptAfterBacktrack") {
